@@ -1,6 +1,6 @@
 (* C10 — metadata is an exact last-writer-wins key-value store across namespaces.
    Only statements here; proofs live in Proofs/. *)
-From VZ Require Import Base.Prelude Model.Namespace Model.Metadata Proofs.NamespaceP Proofs.MetadataP.
+From VZ Require Import Base.Prelude Model.Namespace Model.Metadata Proofs.NamespaceP Proofs.MetadataP Model.Service Proofs.MdRpcP.
 From Coq Require Import Sorting.Sorted.
 
 (* FULL statement of the namespace claim (refuted on the code as it is): *)
@@ -59,3 +59,36 @@ Theorem C10_trial_merge_lww : forall tid old ups k,
   | Some v => Some v | None => lookup_last k old end.
 Proof. exact merge_trial_lookup. Qed.
 Print Assumptions C10_trial_merge_lww.
+
+(* ---- at the level of the UpdateMetadata RPC (service model): an accepted call stores exactly the merge of the study's
+   metadata with the update and, for every trial it names, the merge of that trial's metadata with its updates; every other
+   trial, the operations and the other studies are untouched; a call naming a missing trial answers with error details and
+   leaves the stored state syntactically unchanged *)
+Theorem C10_update_metadata_rpc : forall s k n smd tmd po,
+  get_node k (nodes s) = Some n -> immutable (n_study n) = false ->
+  if md_names_ok n tmd
+  then exists s' n', step s (UpdateMetadata k smd tmd, po) = (s', Done RpEmpty) /\ get_node k (nodes s') = Some n' /\
+         s_state (n_study n') = s_state (n_study n) /\ s_metrics (n_study n') = s_metrics (n_study n) /\
+         s_md (n_study n') = merge (s_md (n_study n)) smd /\
+         n_ops n' = n_ops n /\ n_es n' = n_es n /\
+         (forall id t, get_trial id (n_trials n) = Some t ->
+            get_trial id (n_trials n') =
+              Some (if mem_N id (map fst tmd) then with_md t (merge_trial id (t_md t) tmd) else t)) /\
+         (forall id, get_trial id (n_trials n) = None -> get_trial id (n_trials n') = None) /\
+         (forall k', k' <> k -> get_node k' (nodes s') = get_node k' (nodes s))
+  else step s (UpdateMetadata k smd tmd, po) = (s, Done RpMdError).
+Proof. exact update_metadata_rpc. Qed.
+Print Assumptions C10_update_metadata_rpc.
+
+(* any sequence of UpdateMetadata calls on a study, accepted or rejected: each (namespace, key) of the study's metadata
+   holds the value of the last ACCEPTED write, untouched keys keep their value *)
+Theorem C10_update_metadata_history : forall k po ups s n key,
+  get_node k (nodes s) = Some n -> immutable (n_study n) = false -> NoDup (map fst (s_md (n_study n))) ->
+  exists n', get_node k (nodes (run_all (md_rpcs k po ups) s)) = Some n' /\
+    lookup key (s_md (n_study n')) =
+      match last_write key (accepted n ups) with Some v => Some v | None => lookup key (s_md (n_study n)) end.
+Proof.
+  intros k po ups s n key Hn Him Hnd. destruct (update_metadata_history k po ups s n Hn Him) as [n' [Hn' [Hmd _]]].
+  exists n'. split; [exact Hn'|]. rewrite Hmd. apply lww_fold. exact Hnd.
+Qed.
+Print Assumptions C10_update_metadata_history.
